@@ -171,10 +171,8 @@ impl FencedString {
         if self.buffer.chars().all(char::is_lowercase) {
             None
         } else {
-            Some(Self {
-                buffer: self.buffer.to_lowercase(),
-                char_starts: self.char_starts.clone(),
-            })
+            // lowercasing can change byte widths and even the number of characters
+            Some(Self::from_str(&self.buffer.to_lowercase()))
         }
     }
 
